@@ -1,8 +1,9 @@
 (* StmtSem.v — the statement fragment over global variables: pure-expression
-   statements, assignments of pure expressions to globals, blocks, if,
-   if/else and while with pure conditions, nested without bound.  Its
-   fuelled denotation [ssem] and that Sem.eval computes exactly it, with the
-   same fuel. *)
+   statements, assignments of pure expressions to globals, write(e), blocks,
+   if, if/else and while with pure conditions, nested without bound.  A
+   statement acts on a world: the global bindings, the output written so far
+   and the input not yet read.  Its fuelled denotation [ssem] and that
+   Sem.eval computes exactly it, with the same fuel. *)
 Require Import Calc.Sem.
 Require Import Calc.Base Calc.Bytecode Calc.Value Calc.FloatText Calc.Ast Calc.Compile Calc.VM
         Calc.ExprSem Calc.ExprVM Calc.ExprCorrect Calc.ExprTop Calc.ExprAssign Calc.ExprLen Calc.ExprSession.
@@ -10,6 +11,23 @@ Require Import Lia.
 Open Scope Z_scope.
 
 Definition assign_ok (g : string) (e : node) : bool := pure e.
+
+(* what a statement can change *)
+Record world := { w_glob : globals; w_out : list string; w_in : list string }.
+
+Definition wglob (W : world) (G : globals) : world := {| w_glob := G; w_out := w_out W; w_in := w_in W |}.
+Definition wwrite (W : world) (s : string) : world := {| w_glob := w_glob W; w_out := s :: w_out W; w_in := w_in W |}.
+
+Definition wof_s (st : sstate) : world := {| w_glob := s_globals st; w_out := s_out st; w_in := s_in st |}.
+Definition with_world (st : sstate) (W : world) : sstate :=
+  {| s_frames := s_frames st; s_clos := s_clos st; s_globals := w_glob W; s_next := s_next st;
+     s_out := w_out W; s_in := w_in W |}.
+
+Lemma wglob_same W : wglob W (w_glob W) = W. Proof. destruct W; reflexivity. Qed.
+Lemma with_world_same st : with_world st (wof_s st) = st. Proof. destruct st; reflexivity. Qed.
+Lemma wof_with_world st W : wof_s (with_world st W) = W. Proof. destruct W; reflexivity. Qed.
+Lemma with_world_twice st W1 W2 : with_world (with_world st W1) W2 = with_world st W2. Proof. reflexivity. Qed.
+Lemma with_world_glob st G : with_world st (wglob (wof_s st) G) = with_globals st G. Proof. reflexivity. Qed.
 
 Fixpoint wstmt (t : node) : bool :=
   match t with
@@ -19,6 +37,7 @@ Fixpoint wstmt (t : node) : bool :=
   | NIf c b => pure c && wstmt b
   | NIfElse c a b => pure c && wstmt a && wstmt b
   | NWhile c b => pure c && wstmt b
+  | NWrite e => pure e
   | _ => pure t
   end.
 
@@ -32,59 +51,67 @@ Definition cond_res (r : res value) : res bool :=
   end.
 
 (* the meaning of a statement with fuel n: None = out of fuel; the fuel discipline is Sem.eval's *)
-Fixpoint ssem (n : nat) (G : globals) (t : node) {struct n} : option (globals * res value) :=
+Fixpoint ssem (n : nat) (W : world) (t : node) {struct n} : option (world * res value) :=
   match n with
   | O => None
   | S n' =>
-      let pure_case := if Nat.leb (height t) n then Some (G, den G t) else None in
+      let pure_case := if Nat.leb (height t) n then Some (W, den (w_glob W) t) else None in
       match t with
       | NAssign (NName g) e =>
-          if Nat.leb (height e) n' then Some (sem_simple G t) else None
+          if Nat.leb (height e) n'
+          then Some (wglob W (fst (sem_simple (w_glob W) t)), snd (sem_simple (w_glob W) t)) else None
+      | NWrite e =>
+          if Nat.leb (height e) n' then
+            match den (w_glob W) e with
+            | Ok x => Some (wwrite W (to_string fmt_float x), Ok VNil)
+            | Fail err => Some (W, Fail err)
+            end
+          else None
       | NBlock l =>
-          (fix go (l : list node) (G : globals) : option (globals * res value) :=
+          (fix go (l : list node) (W : world) : option (world * res value) :=
              match l with
-             | [] => Some (G, Ok VNil)
-             | [x] => ssem n' G x
+             | [] => Some (W, Ok VNil)
+             | [x] => ssem n' W x
              | x :: r =>
-                 match ssem n' G x with
+                 match ssem n' W x with
                  | None => None
-                 | Some (G1, Fail e) => Some (G1, Fail e)
-                 | Some (G1, Ok _) => go r G1
+                 | Some (W1, Fail e) => Some (W1, Fail e)
+                 | Some (W1, Ok _) => go r W1
                  end
-             end) l G
+             end) l W
       | NIf c b =>
           if Nat.leb (height c) n' then
-            match cond_res (den G c) with
-            | Fail e => Some (G, Fail e)
-            | Ok true => ssem n' G b
-            | Ok false => Some (G, Ok VNil)
+            match cond_res (den (w_glob W) c) with
+            | Fail e => Some (W, Fail e)
+            | Ok true => ssem n' W b
+            | Ok false => Some (W, Ok VNil)
             end
           else None
       | NIfElse c a b =>
           if Nat.leb (height c) n' then
-            match cond_res (den G c) with
-            | Fail e => Some (G, Fail e)
-            | Ok true => ssem n' G a
-            | Ok false => ssem n' G b
+            match cond_res (den (w_glob W) c) with
+            | Fail e => Some (W, Fail e)
+            | Ok true => ssem n' W a
+            | Ok false => ssem n' W b
             end
           else None
       | NWhile c b =>
           if Nat.leb (height c) n' then
-            (fix loop (k : nat) (G : globals) (last : value) : option (globals * res value) :=
+            (fix loop (k : nat) (W : world) (last : value) : option (world * res value) :=
                match k with
                | O => None
                | S k' =>
-                   match cond_res (den G c) with
-                   | Fail e => Some (G, Fail e)
-                   | Ok false => Some (G, Ok last)
+                   match cond_res (den (w_glob W) c) with
+                   | Fail e => Some (W, Fail e)
+                   | Ok false => Some (W, Ok last)
                    | Ok true =>
-                       match ssem n' G b with
+                       match ssem n' W b with
                        | None => None
-                       | Some (G1, Fail e) => Some (G1, Fail e)
-                       | Some (G1, Ok v) => loop k' G1 v
+                       | Some (W1, Fail e) => Some (W1, Fail e)
+                       | Some (W1, Ok v) => loop k' W1 v
                        end
                    end
-               end) n' G VNil
+               end) n' W VNil
           else None
       | _ => pure_case
       end
@@ -132,15 +159,15 @@ Lemma eval_while_of n c body e st :
 Proof. reflexivity. Qed.
 
 Definition sblock_of (n : nat) :=
-  fix go (l : list node) (G : globals) : option (globals * res value) :=
+  fix go (l : list node) (W : world) : option (world * res value) :=
     match l with
-    | [] => Some (G, Ok VNil)
-    | [x] => ssem n G x
+    | [] => Some (W, Ok VNil)
+    | [x] => ssem n W x
     | x :: r =>
-        match ssem n G x with
+        match ssem n W x with
         | None => None
-        | Some (G1, Fail e) => Some (G1, Fail e)
-        | Some (G1, Ok _) => go r G1
+        | Some (W1, Fail e) => Some (W1, Fail e)
+        | Some (W1, Ok _) => go r W1
         end
     end.
 
@@ -148,18 +175,18 @@ Lemma ssem_block n G l : ssem (S n) G (NBlock l) = sblock_of n l G.
 Proof. reflexivity. Qed.
 
 Definition swhile_of (n : nat) (c b : node) :=
-  fix loop (k : nat) (G : globals) (last : value) : option (globals * res value) :=
+  fix loop (k : nat) (W : world) (last : value) : option (world * res value) :=
     match k with
     | O => None
     | S k' =>
-        match cond_res (den G c) with
-        | Fail e => Some (G, Fail e)
-        | Ok false => Some (G, Ok last)
+        match cond_res (den (w_glob W) c) with
+        | Fail e => Some (W, Fail e)
+        | Ok false => Some (W, Ok last)
         | Ok true =>
-            match ssem n G b with
+            match ssem n W b with
             | None => None
-            | Some (G1, Fail e) => Some (G1, Fail e)
-            | Some (G1, Ok v) => loop k' G1 v
+            | Some (W1, Fail e) => Some (W1, Fail e)
+            | Some (W1, Ok v) => loop k' W1 v
             end
         end
     end.
@@ -172,75 +199,83 @@ Lemma block_go_cons2 n e x y l st :
   block_go_of n e (x :: y :: l) st VNil = bind (eval n x e st) (fun st' _ => block_go_of n e (y :: l) st' VNil).
 Proof. reflexivity. Qed.
 
-Lemma sblock_cons2 n x y l G :
-  sblock_of n (x :: y :: l) G =
-  match ssem n G x with
+Lemma sblock_cons2 n x y l W :
+  sblock_of n (x :: y :: l) W =
+  match ssem n W x with
   | None => None
-  | Some (G1, Fail e) => Some (G1, Fail e)
-  | Some (G1, Ok _) => sblock_of n (y :: l) G1
+  | Some (W1, Fail e) => Some (W1, Fail e)
+  | Some (W1, Ok _) => sblock_of n (y :: l) W1
   end.
 Proof. reflexivity. Qed.
 
-(* Sem.eval computes the fuelled meaning: same fuel, same globals, same value or error *)
-Theorem eval_stmt : forall n t, wstmt t = true -> forall env st G' r,
-  ssem n (s_globals st) t = Some (G', r) ->
-  eval n t env st = Done (with_globals st G') (ctl_of r).
+(* Sem.eval computes the fuelled meaning: same fuel, same globals and output, same value or error *)
+Theorem eval_stmt : forall n t, wstmt t = true -> forall env st W' r,
+  ssem n (wof_s st) t = Some (W', r) ->
+  eval n t env st = Done (with_world st W') (ctl_of r).
 Proof.
-  induction n as [|n IH]; intros t Hw env st G' r Hs; [discriminate Hs|].
+  induction n as [|n IH]; intros t Hw env st W' r Hs; [discriminate Hs|].
   assert (Pure : pure t = true ->
-            (if Nat.leb (height t) (S n) then Some (s_globals st, den (s_globals st) t) else None) = Some (G', r) ->
-            eval (S n) t env st = Done (with_globals st G') (ctl_of r)).
+            (if Nat.leb (height t) (S n) then Some (wof_s st, den (s_globals st) t) else None) = Some (W', r) ->
+            eval (S n) t env st = Done (with_world st W') (ctl_of r)).
   { intros Hp H. destruct (Nat.leb_spec (height t) (S n)) as [Hh|Hh]; [|discriminate H].
-    injection H as <- <-. rewrite with_globals_same. apply eval_pure; assumption. }
+    injection H as <- <-. rewrite with_world_same. apply eval_pure; assumption. }
   destruct t; try (apply Pure; [exact Hw|exact Hs]); try discriminate Hw.
   - (* NIf *)
     cbn [wstmt] in Hw. apply andb_prop in Hw. destruct Hw as [Hc Hb]. cbn [ssem] in Hs. cbn [eval].
     destruct (Nat.leb_spec (height t1) n) as [Hh|Hh]; [|discriminate Hs].
-    rewrite (eval_pure t1 Hc n env st Hh), as_cond_res.
+    rewrite (eval_pure t1 Hc n env st Hh), as_cond_res. cbn [wof_s w_glob] in Hs.
     destruct (cond_res (den (s_globals st) t1)) as [[|]|e].
     + apply IH; assumption.
-    + injection Hs as <- <-. rewrite with_globals_same. reflexivity.
-    + injection Hs as <- <-. rewrite with_globals_same. reflexivity.
+    + injection Hs as <- <-. rewrite with_world_same. reflexivity.
+    + injection Hs as <- <-. rewrite with_world_same. reflexivity.
   - (* NIfElse *)
     cbn [wstmt] in Hw. apply andb_prop in Hw. destruct Hw as [Hw Hb2]. apply andb_prop in Hw. destruct Hw as [Hc Hb1].
     cbn [ssem] in Hs. cbn [eval].
     destruct (Nat.leb_spec (height t1) n) as [Hh|Hh]; [|discriminate Hs].
-    rewrite (eval_pure t1 Hc n env st Hh), as_cond_res.
+    rewrite (eval_pure t1 Hc n env st Hh), as_cond_res. cbn [wof_s w_glob] in Hs.
     destruct (cond_res (den (s_globals st) t1)) as [[|]|e].
     + apply IH; assumption.
     + apply IH; assumption.
-    + injection Hs as <- <-. rewrite with_globals_same. reflexivity.
+    + injection Hs as <- <-. rewrite with_world_same. reflexivity.
   - (* NWhile *)
     cbn [wstmt] in Hw. apply andb_prop in Hw. destruct Hw as [Hc Hb]. rewrite ssem_while in Hs. rewrite eval_while_of.
     destruct (Nat.leb_spec (height t1) n) as [Hh|Hh]; [|discriminate Hs].
     clear Pure. revert Hs. generalize VNil. generalize n at 2 4. intros k. revert st.
     induction k as [|k IHk]; intros st last Hs; [discriminate Hs|]. cbn [while_loop_of swhile_of] in *.
-    rewrite (eval_pure t1 Hc n env st Hh), as_cond_res.
+    rewrite (eval_pure t1 Hc n env st Hh), as_cond_res. cbn [wof_s w_glob] in Hs.
     destruct (cond_res (den (s_globals st) t1)) as [[|]|e].
-    + destruct (ssem n (s_globals st) t2) as [[G1 [v|e]]|] eqn:Eb; try discriminate Hs.
-      * rewrite (IH t2 Hb env st G1 (Ok v) Eb). cbn [ctl_of bind].
-        rewrite (IHk (with_globals st G1) v Hs). reflexivity.
-      * injection Hs as <- <-. rewrite (IH t2 Hb env st G1 (Fail e) Eb). reflexivity.
-    + injection Hs as <- <-. rewrite with_globals_same. reflexivity.
-    + injection Hs as <- <-. rewrite with_globals_same. reflexivity.
+    + change {| w_glob := s_globals st; w_out := s_out st; w_in := s_in st |} with (wof_s st) in Hs.
+      destruct (ssem n (wof_s st) t2) as [[W1 [v|e]]|] eqn:Eb; try discriminate Hs.
+      * rewrite (IH t2 Hb env st W1 (Ok v) Eb). cbn [ctl_of bind].
+        rewrite <- (wof_with_world st W1) in Hs.
+        rewrite (IHk (with_world st W1) v Hs). reflexivity.
+      * injection Hs as <- <-. rewrite (IH t2 Hb env st W1 (Fail e) Eb). reflexivity.
+    + injection Hs as <- <-. rewrite with_world_same. reflexivity.
+    + injection Hs as <- <-. rewrite with_world_same. reflexivity.
   - (* NAssign *)
     destruct t1; try discriminate Hw. cbn [wstmt] in Hw. unfold assign_ok in Hw.
     cbn [ssem] in Hs. destruct (Nat.leb_spec (height t2) n) as [Hh|Hh]; [|discriminate Hs].
     rewrite (eval_simple (NAssign (NName n0) t2) Hw (S n) env st ltac:(cbn [theight]; lia)).
-    assert (Hp : sem_simple (s_globals st) (NAssign (NName n0) t2) = (G', r)) by congruence.
-    rewrite Hp. reflexivity.
+    injection Hs as <- <-. cbn [wof_s w_glob]. rewrite with_world_glob. reflexivity.
   - (* NBlock *)
     cbn [wstmt] in Hw. rewrite eval_block. rewrite ssem_block in Hs.
     assert (Hall : forallb wstmt l = true) by (destruct l; [discriminate Hw|exact Hw]).
     clear Hw Pure. revert st Hs Hall.
     induction l as [|x l IHl]; intros st Hs Hall.
-    + cbn [sblock_of] in Hs. injection Hs as <- <-. rewrite with_globals_same. reflexivity.
+    + cbn [sblock_of] in Hs. injection Hs as <- <-. rewrite with_world_same. reflexivity.
     + cbn [forallb] in Hall. apply andb_prop in Hall. destruct Hall as [Hx Hl].
       destruct l as [|y l'].
       * cbn [sblock_of block_go_of] in *. apply IH; assumption.
       * rewrite sblock_cons2 in Hs. rewrite block_go_cons2.
-        destruct (ssem n (s_globals st) x) as [[G1 [v|e]]|] eqn:Ex; try discriminate Hs.
-        -- rewrite (IH x Hx env st G1 (Ok v) Ex). cbn [ctl_of bind].
-           rewrite (IHl (with_globals st G1) Hs Hl). reflexivity.
-        -- injection Hs as <- <-. rewrite (IH x Hx env st G1 (Fail e) Ex). reflexivity.
+        destruct (ssem n (wof_s st) x) as [[W1 [v|e]]|] eqn:Ex; try discriminate Hs.
+        -- rewrite (IH x Hx env st W1 (Ok v) Ex). cbn [ctl_of bind].
+           rewrite <- (wof_with_world st W1) in Hs.
+           rewrite (IHl (with_world st W1) Hs Hl). reflexivity.
+        -- injection Hs as <- <-. rewrite (IH x Hx env st W1 (Fail e) Ex). reflexivity.
+  - (* NWrite *)
+    cbn [wstmt] in Hw. cbn [ssem] in Hs. destruct (Nat.leb_spec (height t) n) as [Hh|Hh]; [|discriminate Hs].
+    cbn [eval]. rewrite (eval_pure t Hw n env st Hh). cbn [wof_s w_glob] in Hs.
+    destruct (den (s_globals st) t) as [x|err]; injection Hs as <- <-; cbn [ctl_of bind].
+    + reflexivity.
+    + rewrite with_world_same. reflexivity.
 Qed.
